@@ -1266,6 +1266,10 @@ class IRGenerator:
             raise InvalidSpec(
                 '%s is an annotation and cannot be referenced as a type.' %
                 quote(type_ref.name), *loc)
+        elif isinstance(obj, Environment):
+            raise InvalidSpec(
+                '%s is a namespace and cannot be referenced as a type.' %
+                quote(type_ref.name), *loc)
         elif type_ref.args[0] or type_ref.args[1]:
             # An instance of a type cannot have any additional
             # attributes specified.
